@@ -10,6 +10,7 @@ mkdir -p /tmp/seedlogs; log=/tmp/seedlogs/$name.log; : > $log
 demo=$(ls $src/*_test.go 2>/dev/null | head -1)
 pkg=$(grep -m1 '^package ' "$demo" | awk '{print $2}' | sed 's/_test$//')
 case "$pkg" in diam) d=diam;; sm) d=diam/sm;; dict) d=diam/dict;; smparser) d=diam/sm/smparser;; smpeer) d=diam/sm/smpeer;; datatype) d=diam/datatype;; diamtest) d=diam/diamtest;; *) d=diam;; esac
+d=${DEMO_DIR:-$d}
 tags=""; grep -q 'go:build verif' $src/*_test.go 2>/dev/null && tags="-tags verif"
 wt=$(mktemp -d /tmp/seedv.XXXXXX); rmdir $wt
 git -C /repo worktree add --detach $wt HEAD >>$log 2>&1 || { echo "$name: cannot create worktree"; exit 3; }
@@ -33,7 +34,7 @@ print("%d/%d"%(len(base)-len(missing),len(base)))
 PY
 )
 rm -f /tmp/seedv-tests.$$.json
-cp $src/*_test.go $wt/$d/
+mkdir -p $wt/$d; cp $src/*_test.go $wt/$d/
 names=$(grep -ho 'func Test[A-Za-z0-9_]*' $src/*_test.go | sed 's/func //' | paste -sd'|')
 (cd $wt/$d && go test $tags -vet=off -count=1 -run "^($names)\$" . ) >>$log 2>&1; with=$?
 git apply -R $src/patch.diff
